@@ -31,7 +31,7 @@ CONSTANTS Fmt,         \* "csr" | "bcsr"
           M0, M1, K0, K1, N0, N1,   \* ranges of the (block) dimensions m, k (= l), n
           MaxRow,      \* bound on stored entries per row (pruning; large = none)
           BH, BW,      \* block shape (bcsr)
-          Palette,     \* 1 injective non-zero values, 2 values -2..2 with stored zeros and repeats
+          Palette,     \* 1 injective non-zero values, 2 values -2..2 with stored zeros and repeats, 3 all negative, 4 all positive
           ArrayLess,   \* TRUE: an entry-free matrix is the dimension-only container (no arrays); FALSE: allocated, 0 entries
           NAlpha       \* number of alpha values used for the products (2 or 3)
 
@@ -40,7 +40,9 @@ vars == <<ph, X, Y, D, A, B, call, out>>
 
 Val(seed, i, j) ==
   IF Palette = 1 THEN LET q == (i - 1) * 5 + j + seed IN IF q % 2 = 0 THEN q + 1 ELSE -(q + 2)
-  ELSE ((i * 3 + j * 5 + seed) % 5) - 2
+  ELSE IF Palette = 2 THEN ((i * 3 + j * 5 + seed) % 5) - 2
+  ELSE IF Palette = 3 THEN 0 - (((i * 3 + j * 5 + seed) % 7) + 1)      \* all stored values negative (-7..-1), extrema anywhere
+  ELSE ((i * 5 + j * 3 + seed) % 7) + 1                                  \* all stored values positive (1..7)
 SVec(len) == [q \in 1..len |-> IF q % 2 = 1 THEN q + 1 ELSE -(2 * q - 1)]      \* 2,-3,4,-7,...  scaling vectors
 DVec(len) == [q \in 1..len |-> IF q % 3 = 0 THEN 0 ELSE IF q % 2 = 1 THEN -2 ELSE 3] \* -2,3,0,...  diagonal of A
 AbsMat(m, n, Dn) == [i \in 1..m |-> [j \in 1..n |-> Abs(Dn[i][j])]]
